@@ -275,6 +275,12 @@ class WorkerComms:
         """
         self._progress_bar_shutdown.value = True
 
+    def progress_bar_shutdown_requested(self) -> bool:
+        """
+        :return: Whether the progress bar handling process has been signalled to shut down
+        """
+        return self._progress_bar_shutdown is not None and self._progress_bar_shutdown.value
+
     def clear_progress_bar_shutdown(self) -> None:
         """
         Clears the progress bar shutdown signal
